@@ -1065,7 +1065,13 @@ class Study:
         for trial in self._storage.get_all_trials(
             self._study_id, deepcopy=False, states=(TrialState.WAITING,)
         ):
-            if not self._storage.set_trial_state_values(trial._trial_id, state=TrialState.RUNNING):
+            try:
+                if not self._storage.set_trial_state_values(
+                    trial._trial_id, state=TrialState.RUNNING
+                ):
+                    continue
+            except exceptions.UpdateFinishedTrialError:
+                # Another worker has claimed and already finished the trial.
                 continue
 
             _logger.debug("Trial {} popped from the trial queue.".format(trial.number))
